@@ -130,6 +130,7 @@ def run(ctx):
             cov.sample({"family": name, "spec": fam.spec, "n": n, "duplicates": dup})
     finite_kernels(ctx)
     targeted(ctx)
+    multi_epoch(ctx)
 
 
 def _bounds_owner(est):
@@ -228,3 +229,42 @@ def targeted(ctx):
             else:
                 ctx.issue("violation", f"TopoART.fit-or-predict:{exc_enum(e)}", repr(e), rep)
         cov.case(("topo-wipe", tau), True)
+
+
+def multi_epoch(ctx):
+    """several epochs (max_iter > 1), then incremental training and prediction: every estimator whose fit
+    offers max_iter (oracle only; the Lean model covers one training pass)"""
+    cov = ctx.cov
+    names = families.ELEM + ["FusionART", "DualVigilanceART", "TopoART", "SimpleARTMAP", "ARTMAP", "SMART", "DeepARTMAP-sup"]
+    for i in range(ctx.scale(57, 1200)):
+        r = gen.rng_for(ctx.seed, "C04-epochs", i)
+        name = names[i % len(names)]
+        n = r.randint(2, 12)
+        fam, rows = families.build(r, name, n)
+        k = r.choice([2, 3])
+        desc = dict(fam.describe(), rows=rows.tolist(), max_iter=k)
+        est = fam.make()
+        stage = f"fit(max_iter={k})"
+        try:
+            with quiet(), np.errstate(all="ignore"):
+                a = rows.arrs
+                kw = fam.kw()
+                if name in ("SimpleARTMAP", "ARTMAP"):
+                    est.fit(a["X"], a["y"], max_iter=k, **kw)
+                elif name == "DeepARTMAP-sup":
+                    est.fit(a["Xs"], a["y"], max_iter=k, **kw)
+                else:
+                    est.fit(a["X"], max_iter=k, **kw)
+            if not finite_weights(est):
+                ctx.issue("violation", f"{name}:non-finite-weight", f"NaN/inf in learned weights after {stage}", desc)
+            if fam.has_pfit:
+                stage = f"partial_fit after fit(max_iter={k})"
+                fam.pfit(est, rows.sl(0, max(1, n // 2)))
+            if fam.has_predict:
+                stage = "predict"
+                fam.predict(est, rows.sl(0, min(n, 4)))
+            cov.hit("multi-epoch-ok")
+        except Exception as e:
+            ctx.issue("violation", f"{name}.{stage.split('(')[0].replace(' ', '_')}:multi-epoch:{exc_enum(e)}",
+                      f"{stage} raised {e!r} on data accepted by validate_data", desc)
+        cov.case(("epochs", name, fam.spec, desc["rows"], k), True)
